@@ -159,7 +159,12 @@ where
                         .as_str(),
                     )
                 })?;
-            components.push((component_column.0.cast::<u8>(), component_column.1));
+            // From here on the column is owned through its raw parts.
+            let mut component_column = ManuallyDrop::new(component_column);
+            components.push((
+                component_column.as_mut_ptr().cast::<u8>(),
+                component_column.capacity(),
+            ));
         }
 
         // SAFETY: Since one bit was consumed from `identifier_iter`, it still has the same number
